@@ -159,8 +159,13 @@ def correspondence(ctx, model_ok=True):
             objs = d["objects"]
             idx = {o[0]: i for i, o in enumerate(objs)}
             tname = {o[0]: o[1] for o in objs}
+            # (the hook's type names live in a side table keyed by address; an entry can be stale when a block that held a string of an
+            # EARLIER interpreter of this process is re-used by an object allocated through a path that does not record its type: such an
+            # entry has another size than every string box, which all have one size)
+            ssizes = [o[3] for o in objs if o[1].endswith("ObjString")]
+            string_size = max(set(ssizes), key=ssizes.count) if ssizes else None
             for o in objs:
-                if o[1].endswith("ObjString") and o[2] == 0:
+                if o[1].endswith("ObjString") and o[2] == 0 and o[3] == string_size:
                     strings_unrooted += 1
                 if "ObjModule" in o[1] and o[2] == 0:
                     modules_unrooted += 1
